@@ -763,6 +763,9 @@ func (self *LocalJobManager) GetMaxVMemGB() int {
 func (self *LocalJobManager) execJob(shellCmd string, argv []string,
 	envs map[string]string, metadata *Metadata, resRequest *JobResources,
 	fqname string, shellName string, preflight bool) {
+	if verifLocalJob(self, shellCmd, argv, envs, metadata, resRequest, fqname, shellName, preflight) {
+		return
+	}
 	self.Enqueue(shellCmd, argv, envs, metadata, resRequest, fqname, 0, 0, preflight)
 }
 
